@@ -135,6 +135,12 @@ def list_builtin_hook(eng, what, payload, st):
 
 REG.attr_hooks.append(list_builtin_hook)
 
+# until the C18 block verifies the TexArgs bodies these contracts are assumptions (listed in the evidence)
+for _q in ('data.TexArgs.__init__', 'data.TexArgs.append', 'data.TexArgs.__getitem__', 'data.TexArgs.__str__'):
+    for _c in REG.contracts[_q]:
+        _c.trusted = True
+        _c.note = 'assumed: TexArgs body not yet verified'
+
 # ---------------------------------------------------------------------- serialisers: __str__ == ser on the current fields
 _SA = 'SL(self.args.items)'
 _SC = 'SL(self.contents)'
